@@ -141,6 +141,7 @@ pub struct Explorer {
     pub skip_fsck: bool,
     /// also crash the transaction that follows a recovery (one level)
     pub second_level: bool,
+    pub last_spec: Option<CrashSpec>,
     in_second: bool,
     n: u64,
 }
@@ -152,7 +153,7 @@ pub struct ImageVerdict {
 
 impl Explorer {
     pub fn new(pagesize: u64, dir: &str) -> Explorer {
-        Explorer { pagesize, dir: dir.to_string(), counters: BTreeMap::new(), images: 0, skip_fsck: false, second_level: false, in_second: false, n: 0 }
+        Explorer { pagesize, dir: dir.to_string(), counters: BTreeMap::new(), images: 0, skip_fsck: false, second_level: false, last_spec: None, in_second: false, n: 0 }
     }
     fn count(&mut self, k: &str) {
         *self.counters.entry(k.to_string()).or_default() += 1;
@@ -443,6 +444,9 @@ fn run(case: &Case, dir: &str) -> Verdict {
     if let Some((spec, viol)) = result {
         v.extra_out = json!({"crash": spec.to_json(), "second_level": ex.second_level});
         v.violation = Some(viol);
+    } else if let Some(s) = ex.last_spec.take() {
+        // a sample of what was explored, for the evidence file
+        v.extra_out = json!({"sample_crash_point": s.to_json(), "images_in_this_run": ex.images});
     }
     if let Some(h) = seq::HARNESS_FAULT.with(|p| p.borrow_mut().take()) {
         v.harness_error = Some(format!("the harness itself panicked: {}", h));
@@ -460,6 +464,9 @@ fn check_one(ex: &mut Explorer, log: &[Ev], commits: &[CommitRec], spec: &CrashS
     let rec = commits.iter().find(|c| c.n == spec.commit)?;
     let (_, ret) = window_of(log, rec);
     let img = build_image(log, spec);
+    if !spec.tears.is_empty() || ex.last_spec.is_none() {
+        ex.last_spec = Some(spec.clone());
+    }
     let after_return = spec.at >= ret;
     let accept: Vec<&MBucket> = if after_return { vec![&*rec.post] } else { vec![&*rec.pre, &*rec.post] };
     match ex.judge(&img.data, img.len, &accept, followup) {
